@@ -70,6 +70,7 @@ type opts struct {
 	nosec                                      bool
 	secure                                     bool // enforce the BEP 42 security extension
 	slowRate                                   bool // with burst >= 0: one token every 4 s (C01: waiting replies must not stop the node)
+	defaultLimiter                             bool // hand-written config without a limiter: the package default is the budget
 }
 
 type H struct {
@@ -85,18 +86,19 @@ type H struct {
 	base  time.Time
 	t0    time.Time
 
-	mu       sync.Mutex
-	cbs      []cbRec
-	ins      map[string]inInfo // dst|t -> the query it answers
-	lastPut  *net.UDPAddr
-	calls    map[string][]int // dst -> call ids whose rate-limiting applies
-	rated    map[int]dht.QueryRateLimiting
-	writesOf map[string]int // dst|t -> number of writes seen (for rated-ness of retries)
-	keyRL    map[string]dht.QueryRateLimiting
-	failNext int32 // inject a write failure on the next n writes
-	tn       int
-	node     string // name of this node in multi-node traces ("" otherwise)
-	resendNs int64  // when non-zero, the resend delay of queries (default one hour)
+	mu        sync.Mutex
+	cbs       []cbRec
+	ins       map[string]inInfo // dst|t -> the query it answers
+	lastPut   *net.UDPAddr
+	calls     map[string][]int // dst -> call ids whose rate-limiting applies
+	rated     map[int]dht.QueryRateLimiting
+	writesOf  map[string]int // dst|t -> number of writes seen (for rated-ness of retries)
+	keyRL     map[string]dht.QueryRateLimiting
+	failNext  int32 // inject a write failure on the next n writes
+	shortNext int32 // the next n writes are reported short (n-1 bytes, no error) although the datagram leaves
+	tn        int
+	node      string // name of this node in multi-node traces ("" otherwise)
+	resendNs  int64  // when non-zero, the resend delay of queries (default one hour)
 }
 
 func fail(format string, a ...any) {
@@ -179,9 +181,15 @@ func newHAt(rng *rand.Rand, tr *sim.Trace, seg int, o opts, local string, node s
 			h.conn.Failed(b, to)
 			return sim.ErrInjected
 		}
+		if atomic.LoadInt32(&h.shortNext) > 0 && atomic.AddInt32(&h.shortNext, -1) >= 0 {
+			return sim.ErrShort
+		}
 		return nil
 	}
 	cfg := dht.NewDefaultServerConfig()
+	if o.defaultLimiter {
+		cfg = &dht.ServerConfig{DefaultWant: []krpc.Want{krpc.WantNodes, krpc.WantNodes6}, Exp: 2 * time.Hour}
+	}
 	cfg.NodeId = h.own
 	cfg.Conn = h.conn
 	cfg.NoSecurity = !o.secure
@@ -211,6 +219,11 @@ func newHAt(rng *rand.Rand, tr *sim.Trace, seg int, o opts, local string, node s
 		h.lim = rate.NewLimiter(rate.Limit(o.ratePerSec), o.burst)
 	}
 	cfg.SendLimiter = h.lim
+	if o.defaultLimiter {
+		cfg.SendLimiter = nil
+		defer func(l *rate.Limiter) { dht.DefaultSendLimiter = l }(dht.DefaultSendLimiter)
+		dht.DefaultSendLimiter = h.lim
+	}
 	cfg.Logger = log.Default.FilterLevel(log.Critical)
 	if o.block != nil {
 		cfg.IPBlocklist = o.block.Clone()
